@@ -29,6 +29,7 @@
 #include "dfs_filesystem.h"    // for FileSystem
 #include "dfstypes.h"          // for sector_count_type, byte
 #include "driveselector.h"     // for drive_number, operator<<, SurfaceSelector
+#include "verif_hooks.h"       // for BEEBTOOLS_VERIF_TRACE
 
 using std::vector;
 
@@ -195,6 +196,9 @@ namespace DFS
   {
     const sector_count_type cached_sectors = 4;
     assert(!is_drive_connected(n));
+    BEEBTOOLS_VERIF_TRACE("A %u %s %s\n", n.surface(),
+			  (cfg && cfg->format()) ? "formatted" : "unformatted",
+			  cfg ? cfg->drive()->description().c_str() : "-");
     drives_.emplace(n, cfg);
     if (cfg)
       {
